@@ -61,7 +61,20 @@ STUB_ROLES = ('owner', 'admin')
 EXTRA_CAPS = ['scheduler.add', 'scheduler.remove']       # so that registered non-owners can reach the Scheduler wrapper
 FORMS = ['char', 'nick', 'priv', 'atend']
 WRAPPERS = ['direct', 'plugin', 'nested', 'piped', 'alias', 'aka', 'sched']
-SETTINGS = ['stock', 'default-deny', 'anti-cmd-default', 'anti-plugin-default', 'anti-cmd-channel', 'anti-cmd-user', 'chan-ignore']
+SETTINGS = ['stock', 'default-deny', 'anti-cmd-default', 'anti-plugin-default', 'anti-cmd-channel', 'anti-cmd-user', 'chan-ignore',
+            # the configured denial message is blank: globally, for #test only, and the generic one (reply.error.noCapability on)
+            'blank-nocap', 'blank-nocap-chan', 'blank-generic']
+BLANK_SETTINGS = ('blank-nocap', 'blank-nocap-chan', 'blank-generic')
+# commands whose capability check lives in the body (irc.errorNoCapability(..., Raise=True) after ircdb.checkCapability), with arguments
+# that reach the check: exercised for every role lacking the capability under every blank-message setting
+INBODY = [('Config', 'config', 'supybot.reply.whenNotCommand False'), ('Config', 'config', 'supybot.nick foo'),
+          ('Config', 'channel', '#test supybot.reply.whenNotCommand False'), ('Config', 'channel', 'supybot.reply.whenNotCommand False'),
+          ('Config', 'network', 'supybot.nick foo'), ('Config', 'setdefault', 'supybot.reply.whenNotCommand'),
+          ('Config', 'reset channel', '#test supybot.reply.whenNotCommand'), ('Config', 'config', 'supybot.networks.test.password'),
+          ('Channel', 'part', '#test'), ('Aka', 'lock', 'foo'), ('Aka', 'unlock', 'foo'), ('Topic', 'lock', '#test'),
+          ('MessageParser', 'add', '#test "zz" "echo y"'), ('MessageParser', 'vacuum', '#test'), ('Misc', 'list', '--private'),
+          ('Channel', 'voice', '#test pln'), ('Channel', 'kban', '#test pln')]
+LACKING_ROLES = ('plain', 'unreg', 'chanop', 'admin', 'secure', 'secadmin')
 
 _BOT = {}
 LOG = []
@@ -143,6 +156,7 @@ def bot(all_plugins=True):
     _instrument(B)
     setup_roles(B)
     _drain(B)
+    B['nocap0'] = (conf.supybot.replies.noCapability(), conf.supybot.replies.genericNoCapability())
     B['snap_registry'] = {n: str(v) for n, v in conf.supybot.getValues(getChildren=True, fullNames=True)}
     B['callbacks0'] = [cb.name() for cb in irc.callbacks]
     return B
@@ -481,6 +495,14 @@ def apply_setting(B, setting, plugin, cmd):
         for h in ('pln!*@*', 'cop!*@*', 'adm!*@*'):
             c.addIgnore(h)
         ircdb.channels.setChannel(CHAN, c)
+    if setting == 'blank-nocap':
+        conf.supybot.replies.noCapability.setValue('')
+    elif setting == 'blank-nocap-chan':
+        conf.supybot.replies.noCapability.get(CHAN).setValue('')
+    elif setting == 'blank-generic':
+        conf.supybot.reply.error.noCapability.setValue(True)
+        conf.supybot.replies.genericNoCapability.setValue('')
+    B['blanked'] = setting in BLANK_SETTINGS
     if setting == 'anti-cmd-user':
         for role in ('admin', 'chanop', 'plain'):
             u = ircdb.users.getUser(role)
@@ -488,8 +510,24 @@ def apply_setting(B, setting, plugin, cmd):
             ircdb.users.setUser(u)
 
 
+def unblank(B):
+    """put the denial messages back (the per-channel child value is not part of the baseline registry snapshot)"""
+    conf = B['conf']
+    base = B.setdefault('nocap0', (conf.supybot.replies.noCapability(), conf.supybot.replies.genericNoCapability()))
+    if B.get('blanked') or conf.supybot.replies.noCapability() != base[0]:
+        conf.supybot.replies.noCapability.setValue(base[0])
+        conf.supybot.replies.genericNoCapability.setValue(base[1])
+        conf.supybot.reply.error.noCapability.setValue(False)
+        try:
+            conf.supybot.replies.noCapability.unregister(CHAN)
+        except Exception:
+            pass
+    B['blanked'] = False
+
+
 def restore(B):
     conf = B['conf']
+    unblank(B)
     with contextlib.redirect_stdout(io.StringIO()):
         conf.supybot.capabilities.setValue(B.get('stock_caps') or sorted(set.__iter__(conf.supybot.capabilities())))
     conf.supybot.capabilities.default.setValue(True)
@@ -563,7 +601,17 @@ def gate_names_of(g):
 def model_call_case(B, prefix, chan, cb_name, canon, command, gates, allow_extra=True):
     """wire case (op 1) for one _callCommand with only the gating converters in the spec"""
     method = [] if gates is None else [[[[0, g[:3]] for g in gates], False]]
-    return [1, [snapshot_wire(B, prefix), wire.opt(chan), cb_name.lower(), canon, command, False, method]]
+    return [1, [snapshot_wire(B, prefix), wire.opt(chan), cb_name.lower(), canon, command, False, method, nctext(B, chan)]]
+
+
+def nctext(B, chan):
+    """the model's input `text`: blank exactly when the denial message configured for this place is blank"""
+    conf = B['conf']
+    if conf.supybot.reply.error.noCapability():
+        v = conf.get(conf.supybot.replies.genericNoCapability, channel=chan, network='test') if chan else conf.supybot.replies.genericNoCapability()
+    else:
+        v = conf.get(conf.supybot.replies.noCapability, channel=chan, network='test') if chan else conf.supybot.replies.noCapability()
+    return 'x' if v else ''
 
 
 def dec_pyv(v):
@@ -829,6 +877,30 @@ def live_one(B, inv):
                  ('gate_refusals', bool(rec and rec['impl']['gate'])), ('converter_refusals', bool(rec and not rec['impl']['gate'] and rec['impl']['nocap'])),
                  ('bodies', bool(bodies)), ('state_changed', bool(ch))):
         st[k] = st.get(k, 0) + (1 if v else 0)
+    # in-body checks: once the command itself established that this caller lacks a capability it requires (errorNoCapability
+    # called from the running body), it must have no effect other than an error reply (none when the message is blank)
+    inbody = []
+    if calls and not ignored and not lacks:
+        started = False
+        for e in seg:
+            if e[0] == 'body' and (e[1], e[2]) == (plugin, cmd):
+                started = True
+            elif started and e[0] == 'nocap' and isinstance(e[1], str):
+                try:
+                    if not ircdb.checkCapability(eval_prefix or prefix, e[1]):
+                        inbody.append(e[1])
+                except Exception:
+                    pass
+    if inbody:
+        if ch:
+            fails.append('the body of %s %s found that the caller lacks %s but state changed: %s' % (plugin, cmd, inbody[0], '; '.join(ch)[:300]))
+        bad = [m for m in outs if not is_error_reply(B, m, role, helps)]
+        if bad:
+            fails.append('the body of %s %s found that the caller lacks %s but the output is not an error reply: %r' % (plugin, cmd, inbody[0], str(bad[0])[:160]))
+    st = B.setdefault('stats', {})
+    st['inbody_denials'] = st.get('inbody_denials', 0) + (1 if inbody else 0)
+    if B.get('blanked') and (lacks or inbody) and not ignored:
+        st['blank_denials'] = st.get('blank_denials', 0) + 1
     restore_needed = bool(ch) or setting != 'stock' or bool(bodies)
     if restore_needed:
         restore(B)
@@ -867,6 +939,16 @@ def plan(B, rng, mode, cmds, flt=None):
                 elif role in roles:
                     add(ci + 1, p, c, ri, role, 1)
         return invs
+    # the in-body checks under blank denial messages, for every role lacking the capability
+    have = set(cmds)
+    for (p, c, a) in INBODY:
+        if (p, c) not in have:
+            continue
+        for role in LACKING_ROLES:
+            for st_ in BLANK_SETTINGS + ('stock',):
+                for form in (('char', 'priv') if mode == 'quick' else FORMS):
+                    invs.append({'op': 'live', 'role': role, 'form': form, 'wrapper': 'plugin' if mode == 'quick' else rng.choice(WRAPPERS),
+                                 'plugin': p, 'cmd': c, 'args': a, 'setting': st_})
     core, extra = (2, 1) if mode == 'quick' else (10, 5)
     for ci, (p, c) in enumerate(cmds):
         for ri, role in enumerate(ROLES):
@@ -1059,7 +1141,7 @@ def collect_live(ctx, procs):
     if len(ctx.samples) < 12 and recs:
         ctx.samples.append({'kind': 'live', 'input': recs[0]['inv']})
     # model: the full case and the gate-only case (method = None) to tell gate refusals from converter refusals
-    cases = [[1, r['case']] for r in recs] + [[1, r['case'][:6] + [[]]] for r in recs]
+    cases = [[1, r['case']] for r in recs] + [[1, r['case'][:6] + [[]] + r['case'][7:]] for r in recs]
     outs = ctx.model(cases)
     for r, mo, mg in zip(recs, outs[:len(recs)], outs[len(recs):]):
         if mo is None:
@@ -1096,7 +1178,7 @@ def gen_db(rng):
             'registered': [c for c in DEF_POOL[3:] if rng.random() < 0.08],
             'flag': rng.random() < 0.8,
             'ignores': rng.random() < 0.08, 'chan_ignore': rng.random() < 0.08, 'lobotomized': rng.random() < 0.04,
-            'defaultIgnore': rng.random() < 0.05}
+            'defaultIgnore': rng.random() < 0.05, 'nocap_blank': rng.random() < 0.15}
 
 
 H_CALLER = 'vcl!v@vhost'
@@ -1152,6 +1234,7 @@ def _build_rest(B, ircdb, conf, g):
     conf.supybot.capabilities.registeredUsers.setValue(list(g['registered']))
     conf.supybot.capabilities.default.setValue(g['flag'])
     conf.supybot.defaultIgnore.setValue(g.get('defaultIgnore', False))
+    conf.supybot.replies.noCapability.setValue('' if g.get('nocap_blank') else B['nocap0'][0])
 
 
 def gen_gate(rng, nested=False, argchan=None):
@@ -1422,18 +1505,24 @@ def run_gate_cases(ctx, B):
         d = gate_oracle(B, inp, impl, outs)
         if d:
             ctx.fail(inp, d)
-        call = [snapshot_wire(B, H_CALLER), wire.opt(chan), plugin.lower(), canon, command, False, method]
+        call = [snapshot_wire(B, H_CALLER), wire.opt(chan), plugin.lower(), canon, command, False, method, nctext(B, chan)]
         if calls:
             call[4] = calls[0][2]
         wcases.append([4, [call[0], dsp_wire(B, where), call]])
-        impls.append((inp, impl, calls, outs))
+        impls.append((inp, impl, calls, outs, [e[1] for e in LOG if e[0] == 'nocap']))
         ctx.case('gate-%s' % where, inp)
     outs = ctx.model(wcases)
-    for (inp, impl, calls, o), mo in zip(impls, outs):
+    for (inp, impl, calls, o, nocaps_l), mo in zip(impls, outs):
         if mo is None:
             continue
         mr = wire.r(mo, dec_events)
         model = [[x[0], str(x[1])] if x[0] == 'N' else x for x in mr[1]] if mr[0] == 'ok' else mr
+        if inp['db'].get('nocap_blank') and mr[0] == 'ok':
+            # blank denial message: the refusal is silent -- it shows only in the errorNoCapability log
+            want = [x[1] for x in model if x[0] == 'N']
+            if want and (not nocaps_l or str(nocaps_l[-1]) != want[-1]):
+                ctx.disagree(inp, model, {'events': impl, 'nocap_log': [str(c) for c in nocaps_l]}, 'silent refusal on the harness plugin')
+            model = [x for x in model if x[0] != 'N']
         if model != impl:
             ctx.disagree(inp, model, impl, '_callCommand trace on the harness plugin')
     restore_after_gate(B)
@@ -1441,6 +1530,7 @@ def run_gate_cases(ctx, B):
 
 def restore_after_gate(B):
     conf = B['conf']
+    conf.supybot.replies.noCapability.setValue(B['nocap0'][0])
     conf.supybot.capabilities.registeredUsers.setValue([])
     conf.supybot.defaultIgnore.setValue(False)
     restore(B)
@@ -1496,6 +1586,50 @@ def run_ccc_cases(ctx, B):
         if mr != ir:
             ctx.disagree(inp, mr, ir, 'checkCommandCapability')
     restore_after_gate(B)
+
+
+def case_enc(ctx, B, inp, mo):
+    """RichReplyMethods.errorNoCapability on a real ReplyIrcProxy: {blank, generic, kw (None/True/False), where}"""
+    conf, callbacks, ircmsgs, irc = B['conf'], B['callbacks'], B['ircmsgs'], B['irc']
+    ctx.case('errorNoCapability', inp)
+    conf.supybot.reply.error.noCapability.setValue(bool(inp['generic']))
+    (conf.supybot.replies.genericNoCapability if inp['generic'] else conf.supybot.replies.noCapability).setValue('' if inp['blank'] else 'no %s for you' if not inp['generic'] else 'no')
+    try:
+        m = ircmsgs.IrcMsg(':%s PRIVMSG %s :x' % (H_CALLER, CHAN if inp['where'] == 'chan' else 'test'))
+        irc._setMsgChannel(m)
+        proxy = callbacks.ReplyIrcProxy(irc, m)
+        _drain(B)
+        kw = {} if inp['kw'] is None else {'Raise': inp['kw']}
+        try:
+            proxy.errorNoCapability('foo', **kw)
+            outs = _drain(B)
+            impl = ['replied'] if outs else ['nothing']
+        except callbacks.Error as e:
+            impl = ['raise', str(e)]
+            _drain(B)
+    finally:
+        conf.supybot.reply.error.noCapability.setValue(False)
+        conf.supybot.replies.noCapability.setValue(B['nocap0'][0])
+        conf.supybot.replies.genericNoCapability.setValue(B['nocap0'][1])
+    text = '' if inp['blank'] else ('no' if inp['generic'] else 'no foo for you')
+    if mo is not None:
+        model = {0: ['raise', wire.s(mo[1]) if len(mo) > 1 else ''], 1: ['replied'], 2: ['nothing']}[mo[0]]
+        if model != impl:
+            ctx.disagree(inp, model, impl, 'errorNoCapability')
+    # the property's mechanism, on the implementation alone: with Raise=True (or no Raise keyword) the caller is always aborted
+    if inp['kw'] in (None, True) and impl[0] != 'raise':
+        ctx.fail(inp, 'errorNoCapability(cap%s) with a %s message returned (%s) instead of raising: an in-body capability check falls through'
+                 % ('' if inp['kw'] is None else ', Raise=True', 'blank' if inp['blank'] else 'non-blank', impl[0]))
+    return text
+
+
+def run_enc_cases(ctx, B):
+    cases = [{'op': 'enc', 'blank': b, 'generic': g, 'kw': kw, 'where': w}
+             for b in (True, False) for g in (False, True) for kw in (None, True, False) for w in ('chan', 'priv')]
+    texts = ['' if c['blank'] else ('no' if c['generic'] else 'no foo for you') for c in cases]
+    outs = ctx.model([[6, [t, wire.opt(c['kw'])]] for c, t in zip(cases, texts)])
+    for c, mo in zip(cases, outs):
+        case_enc(ctx, B, c, mo)
 
 
 SV_POOL = ['-owner', 'owner', 'Owner', '-admin', 'admin', 'foo', '-foo', '#test,op', 'a b', '', '-OWNER', 'trusted', '-trusted']
@@ -1598,6 +1732,7 @@ def run(ctx):
     procs = run_live(ctx)
     try:
         B = bot(all_plugins=False)
+        run_enc_cases(ctx, B)
         run_setvalue_cases(ctx, B)
         run_ccc_cases(ctx, B)
         run_ignored_cases(ctx, B)
@@ -1615,6 +1750,10 @@ def replay(ctx, inp):
     if op == 'setvalue':
         B = bot(all_plugins=False)
         case_setvalue(sub, B, inp['values'], None)
+        return sub.failures[0]['detail'] if sub.failures else None
+    if op == 'enc':
+        B = bot(all_plugins=False)
+        case_enc(sub, B, inp, None)
         return sub.failures[0]['detail'] if sub.failures else None
     if op == 'gate':
         B = bot(all_plugins=False)
